@@ -1,6 +1,9 @@
 def nontrivial(c):
     ops = [l.split(" ")[1] for l in c["lines"] if l.startswith("op ")]
     obs = [l for l in c["lines"] if l.startswith("obs ")]
+    if "rstop" in ops:           # Retry-After history: something was pending or asleep when Stop was requested
+        stop = [o for l, o in zip([l for l in c["lines"] if l.startswith("op ")], obs) if l == "op rstop"]
+        return any(" u=d" in o for o in stop)
     if "agstop" in ops:          # agent history: Stop requested while the usage loop had something to do or to wait for
         return any("calls=" in o and "calls=0" not in o for o in obs) or any("loc=pending" in o or "loc=sent" in o for o in obs)
     accepted = any(o.startswith(("obs buf", "obs q ", "obs fw", "obs drop")) for o in obs)
@@ -21,12 +24,18 @@ SPEC = dict(
          "reaches the hand-over of a kept trace is parked right before `i.tracesToSend <- trace` (hook in the Metrics the "
          "collector is given), Stop is started and the worker released once Stop has closed the input channels; the rest: data "
          "arriving after the stops, transmission stopped first, double stops, clocks running between the stops, Agent.Stop). Runs on a real InMemCollector + real DirectTransmission + in-process fake Honeycomb. "
-         "Half of the histories are AGENT histories instead: the agent's two background loops (started as connect() does) with a "
+         "A fifth of the histories are RETRY-AFTER histories instead: a real DirectTransmission (fake clock, MaxBatchSize 1-3) in "
+         "front of a scripted upstream whose limited destinations refuse with 429/503 + Retry-After r in {1,2,5,30,59} s from the "
+         "first attempt until r later and accept from then on; events are enqueued and the clock advances (often to r-1, r, r+1), "
+         "cut at every prefix and followed by Stop while a second goroutine keeps advancing the fake clock (so Stop finds events "
+         "pending and batches already asleep on their Retry-After). "
+         "Two fifths of the histories are AGENT histories instead: the agent's two background loops (started as connect() does) with a "
          "scripted OpAMP client (0-4 SendCustomMessage outcomes: accepted / pending, channel open or already closed, failure; "
          "then failure), 3-10 events of usage recorded / usage ticker fires / client reports the message sent, cut at every "
          "prefix and followed by Agent.Stop (so Stop also arrives while a report is pending or waiting to complete, with or "
          "without a tick queued). "
-         "non-trivial = at least one span was accepted before both components were stopped, resp. (agent) the usage loop had "
+         "non-trivial = at least one span was accepted before both components were stopped, resp. (retry) a batch was "
+         "delivered during Stop, resp. (agent) the usage loop had "
          "called the client or was waiting on it before Stop; distinct by transcript hash",
     trusted_base=[
         "clockwork.FakeClock (two instances: collector, transmission)",
@@ -51,7 +60,9 @@ SPEC = dict(
              "after Stop = panic; Stop's coded order (close inputs, wait workers, close tracesToSend, wait sender) admits no send on the closed "
              "channel for any interleaving with worker passes (no_send_after_close), refuted for the order that closes tracesToSend "
              "before waiting (a worker between keep decision and hand-over panics; observed through a panic-time hook, signature "
-             "C36:stop-panics:send-on-closed-channel); the full statement is proved for the proposed repair (fixed = true); both agent loops (healthCheck, reportUsagePeriodically with "
+             "C36:stop-panics:send-on-closed-channel); the shutdown flush honours Retry-After (stop_flush_honours_retry_after: with Clock.Sleep as coded every "
+             "accepted event, pending or already asleep, is delivered by the time Stop returns and no retry precedes the announced "
+             "instant; refuted for a wait that Stop cuts short); the full statement is proved for the proposed repair (fixed = true); both agent loops (healthCheck, reportUsagePeriodically with "
              "sendUsageReport's pending / completion waits) reach `exited` within 6 of their own steps after cancel from every state, "
              "for every client outcome script and select choice (agent_goroutines_exit_after_stop), observed gone on the real "
              "goroutines after Agent.Stop at every prefix of scripted histories; a loop left behind is a monitored violation. Model tied to collect.go, "
